@@ -20,7 +20,7 @@ def plan(tier, seed):
             args = ["--cases", 8 if asan else 20, "--max-roots", 10, "--wait-ms", 90000, "--answer-ms", 60000]
         else:
             cls = _c04.THREE + (_c04.FOUR[(i * 5) % 36:(i * 5) % 36 + 3] if asan else _c04.FOUR[(i * 7) % 36:] + _c04.FOUR[:(i * 7) % 36])[:12 if not asan else 3]
-            args = ["--cases", 25 if asan else 160, "--max-roots", 12, "--wait-ms", 300000, "--answer-ms", 120000]
+            args = ["--cases", 40 if asan else 270, "--max-roots", 12, "--wait-ms", 300000, "--answer-ms", 120000]
         shards.append(dict(bin=("opt", "c13"), args=args + ["--engine", eng, "--nets", nets, "--classes", ",".join(cls), "--dtm-cache", DTM_CACHE]))
     return dict(
         builds=[("opt", "c13"), ("opt", "texel"), ("asan", "texel")],
